@@ -26,11 +26,14 @@ const (
 )
 
 type thr struct {
-	id     int
-	wake   chan struct{}
-	state  int
-	waitMu uintptr
-	fn     func()
+	id      int
+	wake    chan struct{}
+	state   int
+	waitMu  uintptr
+	waitWr  bool
+	held    int
+	harness bool
+	fn      func()
 }
 
 type muState struct {
@@ -39,21 +42,24 @@ type muState struct {
 }
 
 type sched struct {
-	thr         []*thr
-	cur         *thr
-	mus         map[uintptr]*muState
-	timers      map[*time.Timer]*thr
-	killed      bool
-	aborted     bool
-	preempt     int
-	preemptOn   bool
-	unlockYield bool
-	decisions   []int
-	pos         int
-	idleTimers  bool
-	deadlock    bool
-	panicMsg    string
-	panicStack  string
+	thr           []*thr
+	cur           *thr
+	mus           map[uintptr]*muState
+	timers        map[*time.Timer]*thr
+	killed        bool
+	aborted       bool
+	preempt       int
+	preemptOn     bool
+	unlockYield   bool
+	onlyHolding   bool
+	spawnedFIFO   bool
+	timersAtYield bool
+	decisions     []int
+	pos           int
+	idleTimers    bool
+	deadlock      bool
+	panicMsg      string
+	panicStack    string
 }
 
 var S *sched
@@ -145,6 +151,18 @@ func (s *sched) pickNext() *thr {
 		}
 		return nil
 	}
+	if s.spawnedFIFO {
+		var hs []*thr
+		for _, t := range en {
+			if t.harness || t.state == stTimer {
+				hs = append(hs, t)
+			}
+		}
+		if len(hs) == 0 {
+			return en[0]
+		}
+		en = hs
+	}
 	k := 0
 	if len(en) > 1 {
 		k = s.decideN(len(en))
@@ -186,7 +204,7 @@ func (s *sched) yield() {
 	if s.preempt <= 0 || !s.preemptOn {
 		return
 	}
-	en := s.enabled(true)
+	en := s.enabled(s.idleTimers || s.timersAtYield)
 	if len(en) == 0 {
 		return
 	}
@@ -231,7 +249,9 @@ func BeforeLock(mu any, read bool) {
 		return
 	}
 	k := key(mu)
-	s.yield()
+	if !s.onlyHolding || s.cur.held > 0 {
+		s.yield()
+	}
 	st := s.mu(k)
 	for {
 		free := st.writer == nil
@@ -242,11 +262,19 @@ func BeforeLock(mu any, read bool) {
 				}
 			}
 		}
+		if read && free {
+			// a blocked Lock call excludes new readers (same rule as the engine)
+			for _, t := range s.thr {
+				if t != s.cur && t.state == stBlocked && t.waitMu == k && t.waitWr {
+					free = false
+				}
+			}
+		}
 		if free {
 			break
 		}
 		cur := s.cur
-		cur.state, cur.waitMu = stBlocked, k
+		cur.state, cur.waitMu, cur.waitWr = stBlocked, k, !read
 		s.block()
 	}
 	if read {
@@ -254,6 +282,7 @@ func BeforeLock(mu any, read bool) {
 	} else {
 		st.writer = s.cur
 	}
+	s.cur.held++
 }
 
 func AfterLock(mu any, read bool) {}
@@ -284,7 +313,10 @@ func AfterUnlock(mu any, read bool) {
 			t.state, t.waitMu = stReady, 0
 		}
 	}
-	if s.unlockYield {
+	if s.cur.held > 0 {
+		s.cur.held--
+	}
+	if s.unlockYield && (!s.onlyHolding || s.cur.held > 0) {
 		s.yield()
 	}
 }
@@ -428,7 +460,7 @@ var wg sync.WaitGroup
 // Go starts a harness thread.
 func Go(fn func()) {
 	if s := S; s != nil {
-		s.spawn(fn, stReady)
+		s.spawn(fn, stReady).harness = true
 		return
 	}
 	wg.Add(1)
@@ -509,6 +541,21 @@ func PreemptOn() {
 func PreemptOff() {
 	if s := S; s != nil {
 		s.preemptOn = false
+	}
+}
+
+// SpawnedFIFO: when the running thread ends or blocks, harness threads are chosen first (in every order);
+// goroutines started by the code under test run afterwards in spawn order.
+func SpawnedFIFO(on bool) {
+	if s := S; s != nil {
+		s.spawnedFIFO = on
+	}
+}
+
+// PreemptOnlyHolding restricts pre-emption at lock operations to threads that hold at least one lock.
+func PreemptOnlyHolding(on bool) {
+	if s := S; s != nil {
+		s.onlyHolding = on
 	}
 }
 
